@@ -28,6 +28,15 @@ pub fn pool_strategy(max_n: usize) -> BoxedStrategy<PoolCase> {
         .boxed()
 }
 
+/// far more simultaneous connections than any fixed limit a pool might have: each needs its own
+/// worker for as long as it lives
+pub fn pool_many_strategy(thorough: bool) -> BoxedStrategy<PoolCase> {
+    let ns = if thorough { vec![64usize, 257, 300, 520, 1100] } else { vec![257usize, 300] };
+    (proptest::sample::select(ns), prop_oneof![Just(0usize), Just(3usize)], proptest::collection::vec(0u8..2, 1..3))
+        .prop_map(|(n, warmup, yields)| PoolCase { n, warmup, idle: false, yields, tape: vec![] })
+        .boxed()
+}
+
 struct Shared {
     st: rt::sync::Mutex<St>,
     cv: rt::sync::Condvar,
